@@ -1,6 +1,7 @@
 package main
 
 import (
+	"go/constant"
 	"go/token"
 	"go/types"
 	"sort"
@@ -35,6 +36,8 @@ type c20 struct {
 	goInstr              *ssa.Go
 	wname                string
 	W                    map[*ssa.Function]bool // watcher and the package functions it runs
+	cons                 map[FieldID]map[ssa.Value]bool
+	onceFlags            map[FieldID]bool // boolean fields only ever set to true after construction
 }
 
 func checkC20(c *Ctx) {
@@ -71,6 +74,7 @@ func checkC20(c *Ctx) {
 	if ro.Closed.Field == "" {
 		a.resolveClosed()
 	}
+	a.resolveOnceFlags()
 	r.Stats["roles"] = "lock=" + ro.Lock.String() + " members=" + ro.Members.String() + " cancel-channel=" + ro.Closed.String() + " context=" + ro.Ctx.String()
 
 	if !a.findWatcher() {
@@ -96,14 +100,18 @@ func checkC20(c *Ctx) {
 // resolveClosed: several channel fields — the Cancel channel is the one closed
 // by code reachable from Cancel.
 func (a *c20) resolveClosed() {
-	found := map[string]bool{}
+	found := map[FieldID]bool{}
 	for fn := range a.k.reach(a.cancel) {
 		for _, cl := range closeSites(fn) {
 			args := cl.Instr.(ssa.CallInstruction).Common().Args
 			src, _ := a.k.origins(args[0])
 			for _, s := range src {
-				if id, _, ok := fieldOfValue(s); ok && id.Type == a.ro.PoolType {
-					found[id.Field] = true
+				if id, _, ok := fieldOfValue(s); ok {
+					for _, cf := range a.ro.Chans {
+						if cf == id {
+							found[id] = true
+						}
+					}
 				}
 			}
 		}
@@ -112,8 +120,95 @@ func (a *c20) resolveClosed() {
 		undecided("C20 roles: context.Pool has several channel fields and Cancel does not close exactly one of them")
 	}
 	for f := range found {
-		a.ro.Closed = FieldID{a.ro.PoolType, f}
+		a.ro.Closed = f
 	}
+}
+
+// resolveOnceFlags: a boolean field of Pool that, once the object is
+// published, is only ever assigned the constant true ("cancelled"). Such a
+// flag can stand in for members == nil / for the closed Cancel channel, provided
+// it is set in the lock hold that closes the channel (checked by Y5) and only in
+// holds that drop the members (checked by Y7).
+func (a *c20) resolveOnceFlags() {
+	a.onceFlags = map[FieldID]bool{}
+	for _, id := range a.ro.Flags {
+		ok, setTrue := true, false
+		for _, fn := range a.k.Funcs {
+			allInstrs(fn, func(in ssa.Instruction) {
+				st, isStore := in.(*ssa.Store)
+				if !isStore {
+					return
+				}
+				fa, isFA := st.Addr.(*ssa.FieldAddr)
+				if !isFA || fieldIDOfAddr(fa) != id {
+					return
+				}
+				if isFreshBase(fa.X) && prePublication(st) {
+					return
+				}
+				if c, isC := st.Val.(*ssa.Const); isC && c.Value != nil && c.Value.Kind() == constant.Bool && constant.BoolVal(c.Value) {
+					setTrue = true
+					return
+				}
+				ok = false
+			})
+		}
+		if ok && setTrue {
+			a.onceFlags[id] = true
+		}
+	}
+}
+
+// flagTest decodes a branch condition testing a boolean field of Pool
+// (`p.f`, `!p.f`, `p.f == false`, through a temporary): the load, the field
+// and the value the field has on this branch.
+func (a *c20) flagTest(x *c20Ctx, cond ssa.Value, branch bool) (ssa.Instruction, FieldID, bool, bool) {
+	v, val := cond, branch
+	if bo, ok := v.(*ssa.BinOp); ok && (bo.Op == token.EQL || bo.Op == token.NEQ) {
+		other, k := bo.X, bo.Y
+		if _, isC := other.(*ssa.Const); isC {
+			other, k = k, other
+		}
+		c, isC := k.(*ssa.Const)
+		if !isC || c.Value == nil || c.Value.Kind() != constant.Bool {
+			return nil, FieldID{}, false, false
+		}
+		if constant.BoolVal(c.Value) != (bo.Op == token.EQL) {
+			val = !val
+		}
+		v = other
+	}
+	if x != nil {
+		v, _ = x.Resolve(v)
+	}
+	src, open := a.k.origins(v)
+	if open || len(src) != 1 {
+		return nil, FieldID{}, false, false
+	}
+	u, ok := src[0].(*ssa.UnOp)
+	if !ok || u.Op != token.MUL {
+		return nil, FieldID{}, false, false
+	}
+	fa, ok := u.X.(*ssa.FieldAddr)
+	if !ok {
+		return nil, FieldID{}, false, false
+	}
+	id := fieldIDOfAddr(fa)
+	for _, f := range a.ro.Flags {
+		if f == id {
+			return u, id, val, true
+		}
+	}
+	return nil, FieldID{}, false, false
+}
+
+func (a *c20) isFlagLoad(in ssa.Instruction) bool {
+	u, ok := in.(*ssa.UnOp)
+	if !ok || u.Op != token.MUL {
+		return false
+	}
+	fa, ok := u.X.(*ssa.FieldAddr)
+	return ok && a.onceFlags[fieldIDOfAddr(fa)]
 }
 
 func (a *c20) isMembersLoad(v ssa.Value) bool { return c20IsFieldLoad(v, a.ro.Members) }
@@ -147,12 +242,59 @@ func (a *c20) isMemberElem(o ssa.Value) bool {
 	return a.k.allOrigins(ia.X, a.isMembersLoad) == c20Yes
 }
 
-func (a *c20) isClosedLoad(o ssa.Value) bool { return c20IsFieldLoad(o, a.ro.Closed) }
+// isClosedLoad: o is the Cancel channel: a load of the field, or the one value
+// the field was given at construction if it is never assigned afterwards.
+func (a *c20) isClosedLoad(o ssa.Value) bool {
+	return c20IsFieldLoad(o, a.ro.Closed) || a.constructionValue(a.ro.Closed)[o]
+}
+
+// constructionValue: if every store to the field happens on the freshly
+// allocated object before it is published (constructor) and stores one
+// single-origin value, that value and later loads of the field denote the
+// same thing (a local kept by the constructor and captured by a closure, a
+// parameter handed to the watcher, ...). Otherwise nil.
+func (a *c20) constructionValue(id FieldID) map[ssa.Value]bool {
+	if a.cons == nil {
+		a.cons = map[FieldID]map[ssa.Value]bool{}
+	}
+	if m, ok := a.cons[id]; ok {
+		return m
+	}
+	out := map[ssa.Value]bool{}
+	ok := true
+	for _, fn := range a.k.Funcs {
+		allInstrs(fn, func(in ssa.Instruction) {
+			st, isStore := in.(*ssa.Store)
+			if !isStore {
+				return
+			}
+			fa, isFA := st.Addr.(*ssa.FieldAddr)
+			if !isFA || fieldIDOfAddr(fa) != id {
+				return
+			}
+			if !isFreshBase(fa.X) || !prePublication(st) {
+				ok = false
+				return
+			}
+			src, open := a.k.origins(st.Val)
+			if open || len(src) != 1 {
+				ok = false
+				return
+			}
+			out[src[0]] = true
+		})
+	}
+	if !ok || len(out) != 1 {
+		out = nil
+	}
+	a.cons[id] = out
+	return out
+}
 
 // isPoolValue: v is a *Pool (or the Context stored in Pool.Context).
 func (a *c20) isPoolCtx(v ssa.Value) bool {
 	return a.k.allOrigins(v, func(o ssa.Value) bool {
-		if c20IsFieldLoad(o, a.ro.Ctx) {
+		if c20IsFieldLoad(o, a.ro.Ctx) || a.constructionValue(a.ro.Ctx)[o] {
 			return true
 		}
 		return namedKey(o.Type()) == a.ro.PoolType
@@ -676,6 +818,13 @@ func (a *c20) checkWatcherFlow() {
 			}
 			return s
 		}
+		if _, id, val, ok := a.flagTest(x, cond, branch); ok {
+			if a.onceFlags[id] && val {
+				cancelExits++
+				return s | bExit
+			}
+			return s
+		}
 		cmp, ok := decodeCond(cond, branch)
 		if !ok {
 			return s
@@ -838,6 +987,191 @@ func c20Why(m map[string]bool) string {
 	return " [" + c20SortedKeys(m) + "]"
 }
 
+// ---------------------------------------------------------------- loops over a small literal slice
+
+// c20LitLoop: a counted loop `for I := 0..len(S)-1` whose body indexes S[I],
+// S being (in some inlining context) a slice literal / the variadic argument
+// list of a call: `for _, ch := range []<-chan struct{}{a, b} { … }`,
+// `anyClosed(a, b)`.
+type c20LitLoop struct {
+	header *ssa.BasicBlock
+	ia     *ssa.IndexAddr
+}
+
+// c20IndexFromZero: at the loop test the value runs 0,1,2,…: phi{0,+1}, or the
+// range lowering t = phi{-1,t}+1.
+func c20IndexFromZero(v ssa.Value) bool {
+	switch v := v.(type) {
+	case *ssa.Phi:
+		return c20ProgressionFromZero(v)
+	case *ssa.BinOp:
+		if v.Op != token.ADD {
+			return false
+		}
+		phi, ok := v.X.(*ssa.Phi)
+		k, ok2 := v.Y.(*ssa.Const)
+		if !ok || !ok2 || k.Value == nil || k.Int64() != 1 {
+			return false
+		}
+		for _, ed := range phi.Edges {
+			if c, ok := ed.(*ssa.Const); ok && c.Value != nil && c.Int64() == -1 {
+				continue
+			}
+			if ed == ssa.Value(v) {
+				continue
+			}
+			return false
+		}
+		return true
+	}
+	return false
+}
+
+// litLoops finds the counted loops over a slice of channels in the functions
+// reachable from root, keyed by header block and by the element address.
+func (a *c20) litLoops(root *ssa.Function) (map[*ssa.BasicBlock]*c20LitLoop, map[*ssa.IndexAddr]*c20LitLoop) {
+	byHeader, byAddr := map[*ssa.BasicBlock]*c20LitLoop{}, map[*ssa.IndexAddr]*c20LitLoop{}
+	for fn := range a.k.reach(root) {
+		allInstrs(fn, func(in ssa.Instruction) {
+			ia, ok := in.(*ssa.IndexAddr)
+			if !ok {
+				return
+			}
+			sl, ok := ia.X.Type().Underlying().(*types.Slice)
+			if !ok {
+				return
+			}
+			if _, isChan := sl.Elem().Underlying().(*types.Chan); !isChan {
+				return
+			}
+			if !c20IndexFromZero(ia.Index) {
+				return
+			}
+			allInstrs(fn, func(j ssa.Instruction) {
+				ifi, ok := j.(*ssa.If)
+				if !ok {
+					return
+				}
+				cmp, ok := decodeCond(ifi.Cond, true)
+				if !ok || cmp.Op != token.LSS || cmp.X != ia.Index {
+					return
+				}
+				lc, ok := cmp.Y.(*ssa.Call)
+				if !ok || builtinName(lc) != "len" {
+					return
+				}
+				s1, o1 := a.k.origins(lc.Call.Args[0])
+				s2, o2 := a.k.origins(ia.X)
+				if o1 || o2 || len(s1) != 1 || len(s2) != 1 || s1[0] != s2[0] {
+					return
+				}
+				if !ifi.Block().Dominates(ia.Block()) {
+					return
+				}
+				l := &c20LitLoop{header: ifi.Block(), ia: ia}
+				byHeader[l.header] = l
+				byAddr[ia] = l
+			})
+		})
+	}
+	return byHeader, byAddr
+}
+
+// litElems resolves, in the inlining context, the elements of the literal
+// slice the loop runs over (nil if it is not a fully known literal).
+func (a *c20) litElems(x *c20Ctx, l *c20LitLoop) []ssa.Value {
+	v, _ := x.Resolve(l.ia.X)
+	src, open := a.k.origins(v)
+	if open || len(src) != 1 {
+		return nil
+	}
+	sl, ok := src[0].(*ssa.Slice)
+	if !ok || sl.Low != nil || sl.High != nil || sl.Max != nil {
+		return nil
+	}
+	arr, ok := sl.X.(*ssa.Alloc)
+	if !ok {
+		return nil
+	}
+	at, ok := deref(arr.Type()).Underlying().(*types.Array)
+	if !ok {
+		return nil
+	}
+	elems := make([]ssa.Value, at.Len())
+	n := 0
+	for _, r := range refs(arr) {
+		switch q := r.(type) {
+		case *ssa.IndexAddr:
+			k, isC := q.Index.(*ssa.Const)
+			if !isC || k.Value == nil {
+				return nil
+			}
+			for _, rr := range refs(q) {
+				st, ok := rr.(*ssa.Store)
+				if !ok || st.Addr != ssa.Value(q) {
+					return nil
+				}
+				i := int(k.Int64())
+				if i < 0 || i >= len(elems) || elems[i] != nil {
+					return nil
+				}
+				elems[i] = st.Val
+				n++
+			}
+		case *ssa.Slice:
+		default:
+			return nil
+		}
+	}
+	if n != len(elems) || n == 0 {
+		return nil
+	}
+	return elems
+}
+
+// oneLitElem: the channel is an element of a fully known literal slice (of
+// more than one element), loaded at a point that does not lie on a CFG cycle.
+func (a *c20) oneLitElem(x *c20Ctx, ch ssa.Value) bool {
+	v, _ := x.Resolve(ch)
+	src, open := a.k.origins(v)
+	if open || len(src) != 1 {
+		return false
+	}
+	u, ok := src[0].(*ssa.UnOp)
+	if !ok || u.Op != token.MUL {
+		return false
+	}
+	ia, ok := u.X.(*ssa.IndexAddr)
+	if !ok {
+		return false
+	}
+	b := ia.Block()
+	for _, s := range b.Succs {
+		if reachableFrom(s, nil)[b] {
+			return false
+		}
+	}
+	return len(a.litElems(x, &c20LitLoop{ia: ia})) > 1
+}
+
+// litLoopOf: the channel is the current element of a literal loop.
+func (a *c20) litLoopOf(x *c20Ctx, byAddr map[*ssa.IndexAddr]*c20LitLoop, ch ssa.Value) *c20LitLoop {
+	v, _ := x.Resolve(ch)
+	src, open := a.k.origins(v)
+	if open || len(src) != 1 {
+		return nil
+	}
+	u, ok := src[0].(*ssa.UnOp)
+	if !ok || u.Op != token.MUL {
+		return nil
+	}
+	ia, ok := u.X.(*ssa.IndexAddr)
+	if !ok {
+		return nil
+	}
+	return byAddr[ia]
+}
+
 // ---------------------------------------------------------------- Add
 
 // c20AppendInfo decodes v = append(base, elems...).
@@ -870,12 +1204,32 @@ func c20AppendInfo(v ssa.Value) (base ssa.Value, elems []ssa.Value, decoded bool
 func (a *c20) checkAdd() {
 	r, p := a.r, a.p
 	const (
-		bND = 1 << iota // pool context found not done, in the current lock hold
-		bNC             // Cancel channel found not closed, in the current lock hold
-		bEN             // pool seen ended (context done or Cancel channel closed)
-		bAP             // offered context appended to the existing members
-		bLW             // write lock held
+		bND      = 1 << iota // pool context found not done, in the current lock hold
+		bNC                  // Cancel channel found not closed, in the current lock hold
+		bEN                  // pool seen ended (context done or Cancel channel closed)
+		bAP                  // offered context appended to the existing members
+		bLW                  // write lock held
+		bIT                  // inside a loop over a literal slice of channels
+		bEL                  // this iteration found the current element not ready
+		bALL                 // every iteration so far found its element not ready
+		loadBase = 12
 	)
+	byHeader, byAddr := a.litLoops(a.add)
+	loadBit := map[ssa.Instruction]c20State{}
+	var loadMask c20State
+	bitOfLoad := func(in ssa.Instruction) c20State {
+		if b, ok := loadBit[in]; ok {
+			return b
+		}
+		n := len(loadBit)
+		if n >= 8 {
+			return 0
+		}
+		b := c20State(1) << uint(loadBase+n)
+		loadBit[in] = b
+		loadMask |= b
+		return b
+	}
 	// the offered context: the non-receiver parameter of Add
 	var offered *ssa.Parameter
 	for i, pa := range a.add.Params {
@@ -899,7 +1253,7 @@ func (a *c20) checkAdd() {
 			return s
 		}
 		if kind, ok := a.lockKind(in); ok {
-			s &^= bND | bNC
+			s &^= bND | bNC | bEL | bALL | loadMask
 			switch kind {
 			case opLock:
 				s |= bLW
@@ -907,6 +1261,18 @@ func (a *c20) checkAdd() {
 				s &^= bLW
 			}
 			return s
+		}
+		if l := byHeader[in.Block()]; l != nil && in == l.header.Instrs[0] {
+			if s&bIT == 0 {
+				return (s | bIT | bALL) &^ bEL // entering the loop
+			}
+			if s&bEL == 0 {
+				s &^= bALL // the iteration just finished did not test its element
+			}
+			return s &^ bEL
+		}
+		if a.isFlagLoad(in) {
+			return s | bitOfLoad(in)
 		}
 		st, ok := in.(*ssa.Store)
 		if !ok {
@@ -950,8 +1316,83 @@ func (a *c20) checkAdd() {
 		}
 		return s
 	}
+	classify := func(x *c20Ctx, v ssa.Value) c20State {
+		if a.orig(x, v, a.isPoolDone) == c20Yes {
+			return bND
+		}
+		if a.orig(x, v, a.isClosedLoad) == c20Yes {
+			return bNC
+		}
+		return 0
+	}
 	f.Cond = func(x *c20Ctx, cond ssa.Value, branch bool, from, to *ssa.BasicBlock, s c20State) c20State {
+		// leaving a loop over a literal slice of channels by its index test: every element was tested
+		if l := byHeader[from]; l != nil && from != nil {
+			if cmp, ok := decodeCond(cond, branch); ok && cmp.X == l.ia.Index {
+				if cmp.Op == token.GEQ && s&bIT != 0 {
+					if s&bALL != 0 {
+						elems := a.litElems(x, l)
+						if elems == nil {
+							f.Imprecise["a loop in "+x.Fn().Name()+" tests the channels of a slice that is not a fully known literal"] = true
+						}
+						for _, e := range elems {
+							k := classify(nil, e)
+							if k == 0 && a.opaqueChan(nil, e) {
+								f.Imprecise["a loop in "+x.Fn().Name()+" tests a channel whose provenance could not be traced"] = true
+							}
+							s |= k
+						}
+					}
+					s &^= bIT | bEL | bALL
+				}
+				return s
+			}
+		}
+		if ld, id, val, ok := a.flagTest(x, cond, branch); ok {
+			if !a.onceFlags[id] {
+				f.Imprecise["a branch in "+x.Fn().Name()+" tests the boolean field "+id.String()+", which is not a set-once flag"] = true
+				return s
+			}
+			if val {
+				return s | bEN // set only by Cancel, in the hold that closes the Cancel channel (Y5)
+			}
+			if s&loadBit[ld] != 0 {
+				s |= bNC
+			}
+			return s
+		}
 		if si, fired, isDef := c20SelectEdge(cond, branch, to); si != nil {
+			// the current element of a loop over a literal slice
+			for _, cs := range si.Cases {
+				if cs.Dir != types.RecvOnly {
+					continue
+				}
+				l := a.litLoopOf(x, byAddr, cs.ChanV)
+				if l == nil {
+					continue
+				}
+				if len(si.Cases) != 1 {
+					f.Imprecise["a select in "+x.Fn().Name()+" mixes an element of a channel list with other cases"] = true
+					return s
+				}
+				if isDef {
+					return s | bEL
+				}
+				if fired == cs.Index {
+					elems := a.litElems(x, l)
+					all := len(elems) > 0
+					for _, e := range elems {
+						if classify(nil, e) == 0 {
+							all = false
+						}
+					}
+					if all {
+						return s | bEN
+					}
+					f.Imprecise["a loop in "+x.Fn().Name()+" tests the channels of a list that could not be fully resolved"] = true
+				}
+				return s
+			}
 			kindOf := func(cs SelCase) c20State {
 				if cs.Dir != types.RecvOnly {
 					return 0
@@ -962,6 +1403,11 @@ func (a *c20) checkAdd() {
 				}
 				if c == c20Yes {
 					return bNC
+				}
+				if a.oneLitElem(x, cs.ChanV) {
+					// one element of a fully known channel list, tested outside any loop: whatever it is,
+					// the other elements are not tested on this path
+					return 0
 				}
 				if d == c20Unknown || c == c20Unknown || a.opaqueChan(x, cs.ChanV) {
 					f.Imprecise["a select in "+x.Fn().Name()+" tests a channel whose provenance could not be traced"] = true
@@ -1049,6 +1495,9 @@ func (a *c20) checkCancel() {
 		bCL                  // Cancel channel closed under a members!=nil guard, members not yet cleared in this hold
 		bLW                  // write lock held
 		bONCE                // inside sync.Once.Do
+		bNNf                 // a cancelled-flag observed false on a load made in the current lock hold
+		bCLf                 // Cancel channel closed, cancelled-flag not yet set in this hold
+		bFS                  // cancelled-flag set to true in this hold
 		loadBase = 12
 	)
 	loadBit := map[ssa.Instruction]c20State{}
@@ -1068,6 +1517,7 @@ func (a *c20) checkCancel() {
 	}
 	closes := map[ssa.Instruction]string{}
 	unlockBad := map[ssa.Instruction]bool{}
+	flagBad := false
 	f := &c20PathFlow{K: a.k}
 	f.Enter = func(x *c20Ctx, call ssa.CallInstruction, s c20State) c20State {
 		if c20OnceDoArg(call) != nil && staticCallee(call) != nil && callIs(call, "sync", "Once", "Do") {
@@ -1086,24 +1536,33 @@ func (a *c20) checkCancel() {
 			return s
 		}
 		if kind, ok := a.lockKind(in); ok {
-			if (kind == opUnlock || kind == opRUnlock) && s&bCL != 0 {
+			if (kind == opUnlock || kind == opRUnlock) && s&(bCL|bCLf) != 0 {
 				unlockBad[in] = true
 			}
-			s &^= bNN | loadMask
+			if (kind == opUnlock || kind == opRUnlock) && s&bFS != 0 && s&bNIL == 0 {
+				flagBad = true
+			}
+			s &^= bNN | bNNf | loadMask
 			switch kind {
 			case opLock:
 				s |= bLW
 			case opUnlock:
-				s &^= bLW | bCL
+				s &^= bLW | bCL | bCLf | bFS
 			}
 			return s
 		}
 		switch i := in.(type) {
 		case *ssa.UnOp:
-			if i.Op == token.MUL && a.isMembersLoad(i) {
+			if i.Op == token.MUL && (a.isMembersLoad(i) || a.isFlagLoad(in)) {
 				return s | bitOfLoad(in)
 			}
 		case *ssa.Store:
+			if fa, ok := i.Addr.(*ssa.FieldAddr); ok && a.onceFlags[fieldIDOfAddr(fa)] {
+				if isFreshBase(fa.X) && prePublication(i) {
+					return s
+				}
+				return (s | bFS) &^ bCLf
+			}
 			if fa, ok := i.Addr.(*ssa.FieldAddr); ok && fieldIDOfAddr(fa) == a.ro.Members {
 				if isNilConst(i.Val) {
 					return (s | bNIL) &^ bCL
@@ -1120,11 +1579,14 @@ func (a *c20) checkCancel() {
 					switch {
 					case s&bLW == 0:
 						closes[in] = "the Cancel channel is closed without holding the write lock (an Add in between sees neither signal and appends to the dropped slice)"
-					case s&(bNN|bONCE) == 0:
-						closes[in] = "the Cancel channel can be closed although members != nil was not observed in this lock hold: a second Cancel closes it again (panic)"
+					case s&(bNN|bNNf|bONCE) == 0:
+						closes[in] = "the Cancel channel can be closed although neither members != nil nor an unset cancelled-flag was observed in this lock hold: a second Cancel closes it again (panic)"
 					}
-					if s&bONCE == 0 && s&bNIL == 0 {
+					if s&bONCE == 0 && s&bNIL == 0 && s&bNNf == 0 {
 						s |= bCL
+					}
+					if s&bONCE == 0 && len(a.onceFlags) > 0 && s&bFS == 0 {
+						s |= bCLf
 					}
 				case c20Unknown:
 					f.Imprecise["a close() of a channel whose provenance could not be traced"] = true
@@ -1149,6 +1611,20 @@ func (a *c20) checkCancel() {
 						s |= bNN
 					}
 				}
+			}
+			return s
+		}
+		if ld, id, val, ok := a.flagTest(x, cond, branch); ok {
+			if !a.onceFlags[id] {
+				f.Imprecise["a branch in "+x.Fn().Name()+" tests the boolean field "+id.String()+", which is not a set-once flag"] = true
+				return s
+			}
+			if val {
+				// set only in holds that drop the members (checked below)
+				return s | bNIL
+			}
+			if s&loadBit[ld] != 0 {
+				s |= bNNf
 			}
 			return s
 		}
@@ -1203,12 +1679,15 @@ func (a *c20) checkCancel() {
 		}
 	}
 	for in := range unlockBad {
-		bad = append(bad, "the lock hold in which the Cancel channel is closed can end (at "+p.Pos(instrPos(in))+") without members having been set to nil: the members != nil guard no longer prevents a second close")
+		bad = append(bad, "the lock hold in which the Cancel channel is closed can end (at "+p.Pos(instrPos(in))+") without members having been set to nil (or the cancelled-flag set): the guard no longer prevents a second close, or Add still sees the pool as not cancelled")
 		badPos = instrPos(in)
 	}
 	sort.Strings(bad)
-	if res.returns > 0 && !res.all.all(func(s c20State) bool { return s&bCL == 0 }) {
-		bad = append(bad, "Cancel can return after closing the Cancel channel without having set members to nil")
+	if res.returns > 0 && !res.all.all(func(s c20State) bool { return s&(bCL|bCLf) == 0 }) {
+		bad = append(bad, "Cancel can return after closing the Cancel channel without having set members to nil / set the cancelled-flag")
+	}
+	if res.returns > 0 && !res.all.all(func(s c20State) bool { return s&bFS == 0 || s&bNIL != 0 }) {
+		flagBad = true
 	}
 	if !badPos.IsValid() {
 		badPos = a.cancel.Pos()
@@ -1231,9 +1710,9 @@ func (a *c20) checkCancel() {
 		a.decide(len(bad) == 0, f, "C20.Y5-cancel", construct, badPos, "the Cancel channel is closed under the write lock, guarded against a second close, and members is cleared before the hold ends", strings.Join(bad, "; "))
 	}
 	// Y7
-	okNil := res.returns > 0 && res.all.all(func(s c20State) bool { return s&bNIL != 0 })
+	okNil := res.returns > 0 && res.all.all(func(s c20State) bool { return s&bNIL != 0 }) && !flagBad
 	a.decide(okNil, f, "C20.Y7-cancel-clears", "context.Pool.Cancel clears members", a.cancel.Pos(), "every return of Cancel leaves the members slice nil",
-		"Cancel can return without having dropped the members (no nil store and members not seen nil on that path): Size() stays non-zero after Cancel")
+		"Cancel can return without having dropped the members (no nil store and members not seen nil on that path), or sets its cancelled-flag in a lock hold that keeps the members: Size() stays non-zero after Cancel")
 }
 
 // ---------------------------------------------------------------- NewPool
